@@ -105,4 +105,52 @@ impl Reader {
         );
         Ok(())
     }
+
+    /// A batch that fails after its planning sealed blocks into the chain rolls them back:
+    /// `used` shrinks to what was really written before the batch. A block left without
+    /// entries is retired, exactly as if it had been sealed empty (see append_block_to_chain).
+    pub(super) fn rollback_sealed_block(
+        &self,
+        col: &str,
+        block_id: u64,
+        used: u64,
+    ) -> io::Result<()> {
+        let info_arc = {
+            let map = self.data.read().map_err(|_| {
+                io::Error::new(io::ErrorKind::Other, "reader map read lock poisoned")
+            })?;
+            match map.get(col).cloned() {
+                Some(info_arc) => info_arc,
+                None => return Ok(()),
+            }
+        };
+        let mut info = info_arc
+            .write()
+            .map_err(|_| io::Error::new(io::ErrorKind::Other, "col info write lock poisoned"))?;
+        let pos = match info.chain.iter().rposition(|b| b.id == block_id) {
+            Some(pos) => pos,
+            None => return Ok(()),
+        };
+        if used > 0 {
+            info.chain[pos].used = used;
+            if info.cur_block_idx == pos && info.cur_block_offset > used {
+                info.cur_block_offset = used;
+            }
+        } else {
+            info.chain.remove(pos);
+            BlockStateTracker::set_checkpointed_true(block_id as usize);
+            if info.cur_block_idx > pos {
+                info.cur_block_idx -= 1;
+            } else if info.cur_block_idx == pos {
+                info.cur_block_offset = 0;
+            }
+        }
+        debug_print!(
+            "[reader] chain rollback: col={}, block_id={}, used={}",
+            col,
+            block_id,
+            used
+        );
+        Ok(())
+    }
 }
